@@ -3,7 +3,7 @@ from .. import cases, monitors, oracles
 from . import _align_common as ac
 
 TITLE = "Disorder values follow the definition"
-DECIDING = ["M-DIS", "M-DEF-ALIGN", "M-DEF-UNITARY", "M-SLOT-ORDER", "M-CARRIED-VS-RECOMPUTED", "M-AFTER-EDIT", "M-DIS-CONCURRENT"]
+DECIDING = ["M-DIS", "M-DEF-ALIGN", "M-DEF-UNITARY", "M-SLOT-ORDER", "M-CARRIED-VS-RECOMPUTED", "M-AFTER-EDIT", "M-DIS-CONCURRENT", "M-TWO-DISSIMILARITIES"]
 LEVEL = "exploration"
 RULE = ("(A) alignments returned by the library (best / soft / fast with random window sizes) on seeded random continua: "
         "cached Alignment.disorder and carried per-unitary disorders against the float64 definition recomputed from "
@@ -11,7 +11,7 @@ RULE = ("(A) alignments returned by the library (best / soft / fast with random 
         "alignments: random partitions with every pattern of empty slots, 2-5 annotators, with or without an attached "
         "continuum, slots shuffled: Alignment.compute_disorder, the disorders it stores, UnitaryAlignment."
         "compute_disorder, each against the definition and against each other, before and after permuting the slots; (C) returned alignments are also "
-        "computed with cylp masked, with every CBC call failing and (fast mode) with every 2nd / 3rd CBC call failing; (D) one dissimilarity object "
+        "computed with cylp masked, with every CBC call failing and (fast mode) with every 2nd / 3rd CBC call failing; (D) one alignment object measured with a second dissimilarity and with the first again; one dissimilarity object "
         "recomputing the disorders of same-shaped alignments from 4 user threads at once. "
         "non-trivial = alignment with >= 2 real units; distinct by SHA-1 of (continuum, dissimilarity, alignment)")
 ASSUMPTIONS = [
@@ -124,6 +124,24 @@ def check_handbuilt(ctx, case):
         if not oracles.close(float(ua.disorder), refs[k]):
             ctx.fail("handbuilt:stored-unitary-disorder-mismatch", {"k": k, "got": float(ua.disorder), "definition": refs[k]},
                      monitor="M-DIS")
+    # the SAME alignment object measured with a second dissimilarity, then with the first again: each value (returned, cached,
+    # stored per unitary alignment) is the one of the dissimilarity of that call
+    if case.get("second_dissim") and not case.get("arbitrary_doubles"):
+        d2 = pool.get(case["second_dissim"])
+        for which, dd in (("second", d2), ("first-again", dissim)):
+            ctx.count("M-TWO-DISSIMILARITIES")
+            refs_ = [oracles.ref_unitary_disorder(_units_of(ua), dd.d, dd.delta_empty) for ua in al.unitary_alignments]
+            want = sum(refs_) / avg
+            try:
+                v = float(al.compute_disorder(dd))
+            except Exception as e:
+                ctx.fail_exc(f"two-dissimilarities:{which}:raises:{type(e).__name__}", e, monitor="M-TWO-DISSIMILARITIES")
+                break
+            stored = [float(ua.disorder) for ua in al.unitary_alignments]
+            if not oracles.close(v, want) or not oracles.close(float(al.disorder), want) or any(not oracles.close(a, b) for a, b in zip(stored, refs_)):
+                ctx.fail(f"two-dissimilarities:{which}:disorder-mismatch", {"returned": v, "cached": float(al.disorder), "definition": want,
+                                                                           "stored": stored[:4], "definition_per_unitary": refs_[:4]}, monitor="M-TWO-DISSIMILARITIES")
+                break
     # UnitaryAlignment.compute_disorder on fresh objects, in the given and in a permuted slot order
     from pygamma_agreement.alignment import UnitaryAlignment
     for k, ua in enumerate(al.unitary_alignments):
@@ -336,6 +354,14 @@ def run(ctx):
                 rng.shuffle(order)
             case = {"type": "handbuilt", "continuum": cspec, "dissim": dspec, "alignment": aspec,
                     "attach": rng.random() < 0.5, "slot_order": order, "arbitrary_doubles": arbitrary, "edit": rng.random() < 0.5}
+            if rng.random() < 0.35:
+                # a second dissimilarity that accepts the same labels: a label-free one, or one of equal parameters that measures differently
+                alt = ac.same_parameters_other_measure(rng, dspec)
+                case["second_dissim"] = alt if (alt is not None and rng.random() < 0.5) else rng.choice(
+                    [{"kind": "positional", "delta": 0.5}, {"kind": "combined", "alpha": 3.0, "beta": 0.5, "delta": 2.0, "pos": None, "cat": None}])
+                if case["second_dissim"]["kind"] != "positional" and any(u[2] is None for us in cspec["ann"].values() for u in us) \
+                        and cases.dissim_labels(case["second_dissim"]) is not None:
+                    case.pop("second_dissim")
             ctx.begin_case(case)
             ctx.observe("mode", "handbuilt-attached" if case["attach"] else "handbuilt-detached")
         ctx.observe("annotators", n)
